@@ -62,6 +62,27 @@ def batch_check(R, seqs, results):
     R.count("batch-pair", n)
 
 
+def dict_vs_dataframe(R):
+    """typed numpy columns: dict of arrays / dict of lists / DataFrame must give the same table (implementation only)"""
+    n = 60 if R.tier == "quick" else 600
+    p = C.run_impl("impl_card.py", input_obj={"what": "dfcheck", "seed": R.seed, "n": n}, timeout=600)
+    if p.returncode != 0:
+        R.obligation_broken("C14 dict-vs-DataFrame check", p.stderr.decode(errors="replace")[-1500:])
+        return
+    for rec in json.loads(p.stdout):
+        R.case({"dfcheck": rec.get("cols"), "rows": rec.get("rows")}, nontrivial="error" not in rec)
+        R.count("dfcheck:" + ("error" if "error" in rec else "same" if rec["same"] else "differs"))
+        if "error" in rec:
+            continue
+        if not rec["same"]:
+            for col in rec.get("bad_cols") or ["?"]:
+                R.violation({"kind": "dict-vs-dataframe", "dtype": col},
+                            f"a {col} column renders differently when the table is a DataFrame than when it is a dict of the same values",
+                            {"dfcheck": rec})
+        if not rec["cells_are_texts"]:
+            R.violation({"kind": "cell-not-value-text", "cols": rec["cols"]}, "a rendered cell is not the text of its value", {"dfcheck": rec})
+
+
 def run(R):
     R.assumptions += ["get_params(deep=True) is supplied by a stub model (its result is an input of the model)",
                       "DataFrame tables are abstracted to (column names, str() of the cells as iterated); pandas is used when importable",
@@ -74,6 +95,7 @@ def run(R):
     R.notes["not_modelled"] = ["PrettyTable's column layout (oracle `pretty`; its inputs are compared exactly)", "sklearn get_params (oracle)",
                                "add_model_plot (needs sklearn's HTML repr), add_permutation_importances, add_fairlearn_metric_frame"]
     G.run_property(R, "C14", WEIGHTS, MODE, 10, 400, 4000, extra_check=batch_check, corpus=CORPUS)
+    dict_vs_dataframe(R)
 
 
 def replay(R, rep):
